@@ -327,7 +327,7 @@ def check_unit(vc_path, tier='quick', sentinel=True, build_dir=None, pid=None):
         # plus a consistency sentinel over all prelude/spec axioms, and one sentinel per spec lemma
         # that has a `requires`: same parameters and hypotheses, `ensures false`, empty body
         lemma_sent = []
-        spec_src = '\n'.join(_read_fragment(f) for f in u.specs)
+        spec_src = '\n'.join(_read_fragment(f) for f in (u.sentinel_specs if u.sentinel_specs is not None else u.specs))
         extra = 'proof fn __vx_consistency()\n  ensures false, // [__sentinel]\n{ }\n'
         for name, gen, params, req in _lemmas_with_requires(spec_src):
             lemma_sent.append(name)
@@ -367,18 +367,26 @@ def check_unit(vc_path, tier='quick', sentinel=True, build_dir=None, pid=None):
             if b['level'] != 'error':
                 continue
             for ln in [b['primary']] + b['lines']:
-                if ln in slabels:
+                if ln in slabels or any(k2 in b['msg'] for k2 in UNDECIDED_MSGS):
                     for k, (s0, e0, p0) in enumerate(sent_ranges):
-                        if s0 <= ln <= e0:
+                        if ln is not None and s0 <= ln <= e0:
                             failed_idx.add(k)
         vacuous = [sent_ranges[k][2] for k in range(len(sent_ranges)) if k not in failed_idx]
         failed_lemmas = set()
+        # a sentinel that the solver gives up on (rlimit) has not been proved either
+        sent_fn_line = {}
+        for i, l in enumerate(stext.split('\n'), 1):
+            mm = re.match(r'\s*proof fn __sentinel_lemma_(\w+?)(<|\()', l)
+            if mm:
+                sent_fn_line[i] = mm.group(1)
         for b in sblocks:
             if b['level'] != 'error':
                 continue
             for ln in [b['primary']] + b['lines']:
                 if ln in lemma_lines:
                     failed_lemmas.add(lemma_lines[ln])
+                if ln in sent_fn_line:
+                    failed_lemmas.add(sent_fn_line[ln])
         vac_lemmas = [n for n in lemma_sent if n not in failed_lemmas]
         vacuous += ['lemma ' + n for n in vac_lemmas]
         r.sentinels = {'run': True, 'lemma_hypothesis_sentinels': len(lemma_sent), 'contracted': len(contracted), 'failed_as_required': len(contracted) + len(lemma_sent) - len(vacuous), 'vacuous': vacuous, 'axiom_consistency_sentinel_failed_as_required': n_axiom_sent, 'wall_s': round(swall, 2)}
